@@ -1195,13 +1195,28 @@ func shardRoot(w *load.World, c *core.Collector) {
 	// the struct whose RootDir the shard manager itself uses
 	var ref *types.Struct
 	for _, f := range clusterFns(w) {
-		if f.Signature.Recv() == nil || ssax.TypeName(f.Signature.Recv().Type()) != "cluster.ShardManager" {
+		isMgr := f.Signature.Recv() != nil && ssax.TypeName(f.Signature.Recv().Type()) == "cluster.ShardManager"
+		if !isMgr {
+			// its constructor: a root computed once at construction is the manager's own
+			res := f.Signature.Results()
+			for i := 0; i < res.Len(); i++ {
+				if ssax.TypeName(res.At(i).Type()) == "cluster.ShardManager" {
+					isMgr = true
+				}
+			}
+		}
+		if !isMgr {
 			continue
 		}
 		for _, b := range f.Blocks {
 			for _, in := range b.Instrs {
 				if fa, ok := in.(*ssa.FieldAddr); ok {
 					if st := ssax.StructOf(fa.X.Type()); st != nil && st.Field(fa.Field).Name() == "RootDir" {
+						ref = st
+					}
+				}
+				if fv, ok := in.(*ssa.Field); ok {
+					if st := ssax.StructOf(fv.X.Type()); st != nil && st.Field(fv.Field).Name() == "RootDir" {
 						ref = st
 					}
 				}
@@ -1235,6 +1250,12 @@ func shardRoot(w *load.World, c *core.Collector) {
 				okRoot := false
 				root := parts[0]
 				for i := 0; i < 3; i++ {
+					if fv, isFv := root.(*ssa.Field); isFv {
+						if st := ssax.StructOf(fv.X.Type()); st != nil && st.Field(fv.Field).Name() == "RootDir" {
+							okRoot = st == ref
+						}
+						break
+					}
 					ld, isLd := root.(*ssa.UnOp)
 					if !isLd || ld.Op != token.MUL {
 						break
